@@ -25,8 +25,12 @@ CONFIGS = {
 }
 
 
+QUIET = False
+
+
 def log(*a):
-    print(*a, flush=True)
+    if not QUIET:
+        print(*a, flush=True)
 
 
 def sysroot_lib():
